@@ -47,8 +47,9 @@ def allocateExact (mx cap : Nat) : M Buf :=
     let id ← allocateRaw mx cap
     pure ⟨id, cap, []⟩
 
-/-- `Buffer::allocate` -/
-def allocate (mx n : Nat) : M Buf := do
+/-- `Buffer::allocate` (with the `num_words > MAX_CAPACITY` test of fix 52b4fc5) -/
+def allocate (mx n : Nat) : M Buf :=
+  if n > mx then fault (.panic .allocTooMuch) else do
   let c ← defaultCapacityChecked mx n
   allocateExact mx c
 
@@ -61,7 +62,9 @@ def reallocateRaw (b : Buf) (cap : Nat) : M Buf :=
 
 /-- `Buffer::reallocate` -/
 def reallocate (mx : Nat) (b : Buf) (n : Nat) : M Buf :=
-  if b.len ≤ n then do
+  if b.len ≤ n then
+    -- `if num_words > Self::MAX_CAPACITY { panic_allocate_too_much() }` (fix ada6bea)
+    if n > mx then fault (.panic .allocTooMuch) else do
     let c ← defaultCapacityChecked mx n
     reallocateRaw b c
   else assertFail "buffer.rs:169 assert"
@@ -223,5 +226,16 @@ def intoBoxedSlice (b : Buf) : M (Option Buf) :=
   else do
     emit (.realloc b.id b.cap b.len)
     pure (some { b with cap := b.len })
+
+/-- `Buffer::as_full_slice` (feature `zeroize`) — unsafe block buffer.rs:438
+    (`slice::from_raw_parts_mut(ptr, capacity)`): the slice spans the whole allocation `[0, capacity)`,
+    including the words `[len, capacity)` that were never written.  Modelled with the writes `zeroize()`
+    performs on it. -/
+def asFullSliceZero (b : Buf) : M Unit := emits (wr b.id 0 b.cap)
+
+/-- `<Buffer as Zeroize>::zeroize` (third_party/zeroize.rs:12): `as_full_slice().zeroize(); truncate(0)` -/
+def zeroizeBuf (b : Buf) : M Buf := do
+  asFullSliceZero b
+  truncate { b with ws := List.replicate b.len 0 } 0
 
 end Dashu.Model.Mem
